@@ -258,6 +258,10 @@ def gen_text_mutants(repo):
         # after the fourth round of refactorings
         ("conditions.py", "if data_has_paths:\n                datum, _ = datum", "if data_has_paths:\n                datum, _ = datum\n            if processed and datum == processed[-1]:\n                pre_processor_error.append(pre_processor_error[-1])\n                callable_error.append(callable_error[-1])\n                callable_false.append(callable_false[-1])\n                processed.append(processed[-1])\n                continue", {"C01"}, "item-reuses-previous-record", None),
         ("conditions.py", "                    spec_val = INV_DTYPE_LOOKUP[spec_val]\n", "                    spec_val = next(v for k, v in INV_DTYPE_LOOKUP.items() if issubclass(spec_val, k))\n", {"C11"}, "type-named-by-subclass-walk", None),
+        ("schema.py", "path=root_path / rule.path,", "path=(root_path / rule.path) if len(rule.path) else root_path,", {"C18"}, "re-rooting-shortcut-for-root-rules", None),
+        ("datapath.py", "if isinstance(self.parts[-1], MapValue):", "if isinstance(parts[-1], str):", {"C12", "C13"}, "explicit-form-by-value-type", None),
+        ("datapath.py", "        if self.source_data:\n            data = self.source_data", "        if self.source_data is not None:\n            data = self.source_data", {"C12"}, "binding-test-disagrees", None),
+        ("schema.py", "/ DataPath(key)", "/ MapValue(key)", {"C20"}, "named-key-explicit-part", None),
         ("conditions.py", "    MalformedDataPathSpec,\n", "    MalformedDataPathSpec,\n    NotADataPathSpec as _unused_alias,\n", set(), "import-alias-added", "neutral"),
     ]
     for e in edits:
